@@ -16,7 +16,7 @@
 
 use std::{borrow::Cow, collections::BTreeSet, str::FromStr};
 
-pub use parser::ParseError;
+pub use parser::{MAX_EXPRESSION_DEPTH, ParseError};
 
 use super::{
     hop_pattern::{lexer::HopPatternLexer, parser::HopPatternParser},
@@ -33,6 +33,9 @@ use crate::path::{ScionPath, policy::PathPolicy};
 /// - `+` (One or more): The preceding expression must appear one or more times.
 /// - `*` (Zero or more): The preceding expression may appear zero or more times.
 /// - Parentheses `(` and `)` can be used to group expressions and control precedence.
+///
+/// Expressions may be nested at most [`MAX_EXPRESSION_DEPTH`] levels deep; deeper patterns are
+/// rejected by the parser.
 ///
 /// Examples:
 ///
@@ -659,6 +662,19 @@ pub mod parser {
     /// Precedence for logical OR (lower than AND). Larger number = tighter binding.
     const OR_BIND_POWER: u8 = 10;
 
+    /// Maximum nesting depth of a hop pattern expression.
+    ///
+    /// Parsing, matching, cloning, comparing and dropping an expression all recurse once per
+    /// nesting level, so an unbounded depth would let a (configured) pattern string exhaust the
+    /// native stack, which aborts the process. The parser therefore rejects
+    /// - expressions whose syntax tree is deeper than this limit, where a hop predicate has depth 1
+    ///   and each operator (`|`, `?`, `+`, `*`) is one level above its deepest operand, and
+    /// - parentheses and right-hand sides of `|` that would nest more than this many levels.
+    ///
+    /// Note that a chain `a | b | c | ...` is left-associative: each further alternative adds one
+    /// level. Longer alternations can be grouped with parentheses to stay below the limit.
+    pub const MAX_EXPRESSION_DEPTH: usize = 256;
+
     /// Defines associativity (grouping direction) for infix operators.
     #[derive(Debug, Clone, Copy, PartialEq, Eq, Hash)]
     enum Grouping {
@@ -753,18 +769,47 @@ pub mod parser {
             }
         }
 
+        /// Fails if `depth` exceeds [`MAX_EXPRESSION_DEPTH`]; `span` is the token that would add
+        /// the offending level.
+        #[inline]
+        fn check_depth(depth: usize, span: (usize, usize)) -> Result<(), ParseError> {
+            if depth > MAX_EXPRESSION_DEPTH {
+                return Err(ParseError::new(
+                    span,
+                    format!("expression is nested deeper than {MAX_EXPRESSION_DEPTH} levels")
+                        .into(),
+                ));
+            }
+            Ok(())
+        }
+
+        /// Consumes the postfix operator at the current position and returns the depth of the
+        /// expression it builds on top of an operand of depth `operand_depth`.
+        #[inline]
+        fn consume_postfix(&mut self, operand_depth: usize) -> Result<usize, ParseError> {
+            Self::check_depth(operand_depth + 1, self.tokens[self.pos].span)?;
+            self.consume();
+            Ok(operand_depth + 1)
+        }
+
         /// Core expression parser.
+        ///
+        /// `nesting` is the number of `parse_expr` calls on the stack, this one included. Returns
+        /// the expression together with the depth of its syntax tree. Both are kept within
+        /// [`MAX_EXPRESSION_DEPTH`].
         fn parse_expr(
             &mut self,
             left_binding_power: u8,
-        ) -> Result<HopPatternExpression, ParseError> {
+            nesting: usize,
+        ) -> Result<(HopPatternExpression, usize), ParseError> {
             // Consume Prefixes / Atoms
-            let mut expr = match self.consume() {
+            let (mut expr, mut depth) = match self.consume() {
                 // Atom: HopPredicate
                 Some((TokenKind::HopPredicate(s), span)) => {
-                    HopPatternExpression::HopPredicate(s.parse().map_err(|e| {
+                    let pred = HopPatternExpression::HopPredicate(s.parse().map_err(|e| {
                         ParseError::new(span, format!("invalid hop predicate '{s}': {e}").into())
-                    })?)
+                    })?);
+                    (pred, 1)
                 }
                 // Unsupported prefix operator '!'
                 Some((TokenKind::Bang, span)) => {
@@ -775,9 +820,10 @@ pub mod parser {
                 }
                 // Parenthesized sub-expression
                 Some((TokenKind::LParen, span_l)) => {
-                    let nested_expr = self.parse_expr(NO_BIND_POWER)?;
+                    Self::check_depth(nesting + 1, span_l)?;
+                    let nested = self.parse_expr(NO_BIND_POWER, nesting + 1)?;
                     match self.consume() {
-                        Some((TokenKind::RParen, _)) => nested_expr,
+                        Some((TokenKind::RParen, _)) => nested,
                         Some((_, span)) => {
                             return Err(ParseError::new(span, "expected ')'".into()));
                         }
@@ -817,17 +863,17 @@ pub mod parser {
                 // Consume Postfixes Greedily
                 match self.peek_kind() {
                     Some(TokenKind::QMark) => {
-                        self.consume();
+                        depth = self.consume_postfix(depth)?;
                         expr = HopPatternExpression::Optional(Box::new(expr));
                         continue;
                     }
                     Some(TokenKind::Plus) => {
-                        self.consume();
+                        depth = self.consume_postfix(depth)?;
                         expr = HopPatternExpression::OneOrMore(Box::new(expr));
                         continue;
                     }
                     Some(TokenKind::Star) => {
-                        self.consume();
+                        depth = self.consume_postfix(depth)?;
                         expr = HopPatternExpression::ZeroOrMore(Box::new(expr));
                         continue;
                     }
@@ -863,6 +909,8 @@ pub mod parser {
                 }
 
                 // Consume operator token
+                let op_span = self.tokens[self.pos].span;
+                Self::check_depth(nesting + 1, op_span)?;
                 self.consume();
 
                 // Adjust RHS binding power for associativity
@@ -872,11 +920,13 @@ pub mod parser {
                 };
 
                 // Parse RHS and build combined node
-                let right_expr = self.parse_expr(rhs_binding_power)?;
+                let (right_expr, right_depth) = self.parse_expr(rhs_binding_power, nesting + 1)?;
+                depth = depth.max(right_depth) + 1;
+                Self::check_depth(depth, op_span)?;
                 expr = build_infix(expr, right_expr);
             }
 
-            Ok(expr)
+            Ok((expr, depth))
         }
 
         /// Parse a Path Policy Hop Pattern
@@ -886,7 +936,7 @@ pub mod parser {
         pub fn parse(&mut self) -> Result<HopPatternPolicy, ParseError> {
             let mut hop_pattern = Vec::new();
             while self.peek_kind() != Some(&TokenKind::EOI) {
-                let expr = self.parse_expr(NO_BIND_POWER)?;
+                let (expr, _depth) = self.parse_expr(NO_BIND_POWER, 1)?;
                 hop_pattern.push(expr);
             }
 
